@@ -256,6 +256,23 @@ def finishNode (g : Game) (depth plies : Nat) (inCheck : Bool) (bound : TT.Bound
       { bound, eval := fromPosition bestEval plies, best := bestMove, age := c.tt.generation, depth }
     ⟨.ok bestEval, pv, { c with tt := c.tt.insert g.zobrist data }⟩
 
+/-- the transposition-table cut-off of a non-root, non-PV node -/
+def ttCutoff (entry : Option TT.Data) (allowed : Bool) (depth : Nat) (alpha beta : Int) (plies : Nat) : Option Int :=
+  match entry with
+  | some e =>
+    if allowed && e.depth ≥ depth then
+      let s := fromRoot e.eval plies
+      match e.bound with
+      | .exact => some s
+      | .upper => if e.eval ≤ alpha then some s else none
+      | .lower => if e.eval ≥ beta then some s else none
+    else none
+  | none => none
+
+/-- no two null moves in a row: the previous move (if any) was a real one -/
+def prevNotNull (g : Game) : Bool :=
+  match g.history.head? with | none => true | some h => h.mv.isSome
+
 /-- `negamax` -/
 def negamax : Nat → Game → Int → Int → Nat → Nat → List Move → Ctx → NodeOut
   | 0, _, _, _, _, _, pv, c => ⟨.panic "out of fuel", pv, c⟩
@@ -281,16 +298,7 @@ def negamax : Nat → Game → Int → Int → Nat → Nat → List Move → Ctx
     let c := if !isRoot then { c with nodes := c.nodes + 1 } else c
     -- transposition table
     let ttEntry := c.tt.get g.zobrist
-    let ttCut : Option Int := match ttEntry with
-      | some e =>
-        if !isRoot && !isPv && e.depth ≥ depth then
-          let s := fromRoot e.eval plies
-          match e.bound with
-          | .exact => some s
-          | .upper => if e.eval ≤ alpha then some s else none
-          | .lower => if e.eval ≥ beta then some s else none
-        else none
-      | none => none
+    let ttCut : Option Int := ttCutoff ttEntry (!isRoot && !isPv) depth alpha beta plies
     match ttCut with
     | some s => ⟨.ok s, pv, c⟩
     | none =>
@@ -306,7 +314,7 @@ def negamax : Nat → Game → Int → Int → Nat → Nat → List Move → Ctx
     if prunable && depth ≤ Gen.p_reverse_futility_prune_depth && rfpVal > beta then ⟨.ok beta, pv, c⟩ else
     -- null move pruning
     let doNull := prunable && depth ≥ Gen.p_null_move_pruning_depth_limit && ev ≥ beta
-      && (match g.history.head? with | none => true | some h => h.mv.isSome)
+      && prevNotNull g
     let (earlyOut, c) := nullMovePhase
       (fun c => negamax fuel (Game.makeNull theCfg g) (neg beta) (neg beta + 1)
         (depth - 1 - Gen.p_null_move_pruning_depth_reduction) (plies + 1) [] c) doNull beta pv c
